@@ -275,6 +275,9 @@ Section Transition.
       end
     end.
 
+  (* Directory.ReadContentNames never reports "." or ".." *)
+  Definition listed (k : name) : bool := negb (String.eqb k ".") && negb (String.eqb k "..").
+
   (* removeDirectory: (state, removed?, what remains of expected.Contents) *)
   Fixpoint remove_dir_f (fuel : nat) (h : path) (n : name) (p : path)
            (ec : list (name * entry)) (s : tstate) {struct fuel}
@@ -289,7 +292,7 @@ Section Transition.
         match r2 with
         | ROk mds =>
           let '(s3, fl, ec') :=
-            remove_loop (remove_dir_f fuel') d p (map md_name mds) ec s2 no_flags in
+            remove_loop (remove_dir_f fuel') d p (filter listed (map md_name mds)) ec s2 no_flags in
           let ec'' := if negb (f_cancel fl) && negb (f_failed fl) then [] else ec' in
           if negb (f_cancel fl) && negb (f_unknown fl) && negb (f_failed fl) then
             let '(s4, r4) := run (liftF (rmdir Q h n)) s3 in
